@@ -72,6 +72,7 @@ class RunState:
         self.failure_log: list[tuple[str, str, str]] = []  # (job, phase, why)
         self.fail_sites: list[tuple[str, str]] = []  # (job, step name) parallel to failure_log
         self.job_dirs: dict[str, tuple[str, str, str]] = {}
+        self.first_dirs: dict[str, tuple[str, str, str]] = {}  # directories of each job's FIRST attempt
         self.job_outputs: dict[str, list[str]] = {}  # job -> output paths written
         self.lost_jobs: set[str] = set()
         self.loss_events: dict[str, int] = {}  # job -> how many times existing data of that job was deleted
@@ -225,7 +226,16 @@ def _lose(run: RunState, context, job: Job, what):
     """Delete data according to the fault plan: 'own' = this job's directories, 'all' = whole workdir,
     otherwise a list of job names whose output directories are deleted."""
     targets = []
-    if what == "all":
+    if isinstance(what, dict):
+        # {"original": [jobs]}: delete the directories those jobs had on their FIRST attempt only -- "the data was lost
+        # once"; copies regenerated by a recovery that is already under way are not touched
+        for n in what["original"]:
+            dirs = run.first_dirs.get(n)
+            if dirs:
+                targets.extend(d for d in dirs if d)
+                if n != job.name and any(d and os.path.isdir(d) for d in dirs):
+                    run.lost_jobs.add(n)
+    elif what == "all":
         # every job directory created so far (not the workflow inputs, which live outside the work area)
         for n, dirs in run.job_dirs.items():
             targets.extend(d for d in dirs if d)
@@ -241,7 +251,7 @@ def _lose(run: RunState, context, job: Job, what):
                 if n != job.name:
                     run.lost_jobs.add(n)
     owner = {}
-    for n, dirs in run.job_dirs.items():
+    for n, dirs in list(run.job_dirs.items()) + list(run.first_dirs.items()):
         for d in dirs:
             owner[d] = n
     hit = set()
@@ -274,6 +284,7 @@ class GateCommand(Command):
         context = self.step.workflow.context
         run.exec_log.append(job.name)
         run.job_dirs[job.name] = (job.input_directory, job.output_directory, job.tmp_directory)
+        run.first_dirs.setdefault(job.name, run.job_dirs[job.name])
         n, fault = run.hit(job.name, "execute")
         await _gate(f"job:{job.name}#{n}")
         if fault is not None:
@@ -317,6 +328,7 @@ class PlanScheduleStep(ScheduleStep):
             raise WorkflowExecutionException(f"Injected error into {self.name}")
         await super()._set_job_directories(connector, locations, job)
         RUN.job_dirs[job.name] = (job.input_directory, job.output_directory, job.tmp_directory)
+        RUN.first_dirs.setdefault(job.name, RUN.job_dirs[job.name])
 
 
 class PlanTransferStep(TransferStep):
